@@ -136,7 +136,7 @@ pub fn run(ctx: Ctx) -> i32 {
     }
     let tier = ctx.tier;
     let pairs = vcore::zoo::c16_pair_family();
-    let n_random = tier.pick(160u64, 4000u64);
+    let n_random = tier.pick(600u64, 4000u64);
     let n_bases = n_random + pairs.len() as u64;
     let bad = run_in_workers(&report, 16, std::time::Duration::from_secs(tier.pick(600, 7200)), &|report: &Report| {
         report.ctx.my_shards(n_bases).par_iter().for_each(|&b| {
